@@ -585,6 +585,14 @@ package sizes
 //@   call 1 BatchObjectIter).Next as co
 //@   call 2 BatchObjectIter).Next as tg
 //@   call 0 Progress.Done assert hdr2 == nil && !hdr1
+// C10 "never hangs": the two feeder goroutines send their verdict on errChan
+// once, when they are done, and they are done only when their consumer has
+// drained them. The scan therefore waits for a verdict only (0) after the
+// header iterator has reported its end without error and (1) after every
+// requested tree, commit and tag has been read back -- never on a path where
+// the pipeline has already failed, where the feeder may be stuck for ever.
+//@   recv 0 assert hdr2 == nil && !hdr1
+//@   recv 1 assert nTree == len(*trees) && nCommit == len(*commits) && nTag == len(*tags)
 //@   loop 0 step hdr1 && hdr2 == nil
 //@   loop 0 step hdr0.ObjectType == "blob" ==> nBlob == prev(nBlob) + 1 && nInc == prev(nInc) + 1 && len(*trees) == prev(len(*trees)) && len(*commits) == prev(len(*commits)) && len(*tags) == prev(len(*tags))
 //@   loop 0 step hdr0.ObjectType == "tree" ==> nBlob == prev(nBlob) && len(*trees) == prev(len(*trees)) + 1 && len(*commits) == prev(len(*commits)) && len(*tags) == prev(len(*tags))
@@ -962,3 +970,5 @@ package sizes
 //@ property C11: newItem (*item).CollectItems (*section).CollectItems (*item).Indented newSection
 //@ property C01: NewExplicitRoot
 //@ property C08: (*Graph).RegisterName structural/items-well-formed
+// bytes get binary prefixes and counts metric ones at every item of the report
+//@ property C12: structural/items-well-formed
